@@ -8,6 +8,7 @@ W=${1:-/var/tmp/cov}
 T=$(dirname $(rustc +nightly --print target-libdir))/bin
 rm -rf "$W"; mkdir -p "$W/raw" "$W/out" "$W/rp"
 cd /verif/sim
+export LLVM_PROFILE_FILE="$W/raw/build-%p-%m.profraw"
 RUSTFLAGS="-C instrument-coverage -Zinline-mir=no" cargo +nightly build --offline --target-dir "$W/target" 2>&1 | tail -1
 export LLVM_PROFILE_FILE="$W/raw/%p-%m.profraw"
 for p in C01 C02 C10 C11 C20; do "$W/target/debug/physim" explore --prop $p --seed 1 --count 2000 --fresh-every 0 --out "$W/out/p-$p.json" --replay-dir "$W/rp" >/dev/null 2>&1 || echo "physim $p: exit $?"; done
